@@ -1,6 +1,6 @@
 (* Wire decoding/encoding for case kinds 3 (stateless combinators) and 4 (stateful streams). *)
 From Coq Require Import ZArith Bool List.
-From RRTK Require Import Num.Num Num.B32 Model.Values Model.Prog Model.Wire Model.Combinators Model.Streams.
+From RRTK Require Import Num.Num Num.B32 Model.Values Model.Prog Model.Wire Model.Combinators Model.Streams Model.Assembly.
 Import ListNotations.
 Local Open Scope Z_scope.
 
@@ -231,6 +231,9 @@ Definition strm_case (stream : Z) : P (list Z) :=
   else if stream =? 14 then
     do evs <- p_events (do cd <- p_out p_b; do i <- p_out p_f; pret (cd, i));
     pret (run_events (fun st ev => let '(st', u) := freeze_step st (fst ev) (snd ev) in Ok (st', ev_out u (e_out e_f st'))) (@ONone f32) evs)
+  else if stream =? 15 then
+    do sp <- p_f; do k <- p_kvals; do evs <- p_events (p_out (p_q c));
+    pret (run_events (lift_step (spid_step c) (fun s => e_res (e_out e_f) (spid_get s))) (spid_init c sp (kp k) (ki k) (kd k)) evs)
   else fun _ => None.
 End Strm.
 
